@@ -198,7 +198,7 @@ def run_C07(tier, seed, replay=None, procs=16):
     objs = [o for o in FS.OBJECTIVES if o != "none"]
     if not full:
         objs = ["makespan", "flowtime", "start_latest", "max_expr", "min_bounded", "max_bounded", "cost", "two_min", "two_max", "two_min_w0",
-                "max_buffer", "min_buffer"]
+                "max_buffer", "min_buffer", "min_lateness", "min_tardiness"]
     if replay:
         ps = number([replay["problem"]])
     else:
@@ -240,6 +240,22 @@ def run_C15(tier, seed, replay=None, procs=16):
     ps = number([replay["problem"]]) if replay else number(
         FS.pool(["none", "makespan", "flowtime", "min_bounded", "max_bounded", "two_min", "two_max"],
                 shapes=("plain", "optional", "variable", "infeasible")))
+    if not replay:
+        # element names that coincide with names the library generates for its own z3 constants (legal: names only
+        # have to be unique per kind): every configuration, debug mode included, must treat them as plain names
+        from problems import PB
+        extra = []
+        for cname in ("B_scheduled", "A_start", "W_busy_A_end"):
+            b = PB(4, tag="generated-name-as-constraint-name")
+            a = b.task("A", "F", dur=2)
+            c = b.task("B", "F", dur=1, optional=True)
+            w = b.worker("W")
+            b.require(a, worker=w)
+            b.require(c, worker=w)
+            b.con("TaskEndBefore", name=cname, task=a, value=4, kind="lax")
+            b.obj("ObjectiveMinimizeMakespan")
+            extra.append(b.done())
+        ps = number(ps + extra)
     V, st_enum = SE.prepare(ps)
     grid = []
     for opt, prio, par, rv, dbg, lg in itertools.product(("incremental", "optimize"), ("pareto", "lex", "box", "weight"),
@@ -293,9 +309,14 @@ def _infeasible_problems(full):
     from problems import PB
     ps = []
     pads = (0, 1, 3) if full else (0, 2)
-    for kind, pad in itertools.product(("startat-endat", "precedence-cycle", "deadline-worker", "unavailable", "unavailable-2",
-                                        "force-n", "buffer", "force-apply", "workload", "indicator-bounds"), pads):
-        b = PB(4, tag=f"infeasible-{kind}/pad{pad}")
+    grid = list(itertools.product(("startat-endat", "precedence-cycle", "deadline-worker", "unavailable", "unavailable-2",
+                                   "force-n", "buffer", "force-apply", "workload", "indicator-bounds",
+                                   "two-reasons", "two-reasons-shared"), pads, (False,)))
+    # the same conflicts with human-readable constraint names (spaces, punctuation, accents, a leading digit)
+    grid += [(k, 0, True) for k in ("startat-endat", "deadline-worker", "unavailable", "force-apply", "two-reasons")]
+    readable = {"k1": "règle n°1: début", "k2": "2nd rule (end, strict)", "k3": "rule 3 / other task", "k4": "4: fin"}
+    for kind, pad, nice in grid:
+        b = PB(4, tag=f"infeasible-{kind}/pad{pad}" + ("/readable-names" if nice else ""))
         a = b.task("A", "F", dur=2)
         c = b.task("B", "F", dur=1)
         d = b.task("C", "F", dur=1, optional=True)
@@ -333,6 +354,17 @@ def _infeasible_problems(full):
             i = b.ind("IndicatorFromMathExpression", name="gap", expr={"op": "start", "task": a})
             b.con("IndicatorBounds", name="k1", ind=i, lower=[0], upper=[1])
             b.con("TaskStartAfter", name="k2", task=a, value=2, kind="lax")
+        elif kind == "two-reasons":
+            # two INDEPENDENT reasons: whatever is listed must still be infeasible on its own
+            b.con("TaskStartAt", name="k1", task=a, value=1)
+            b.con("TaskEndAt", name="k2", task=a, value=2)
+            b.con("TaskStartAt", name="k3", task=c, value=2)
+            b.con("TaskEndAt", name="k4", task=c, value=2)
+        elif kind == "two-reasons-shared":
+            # two reasons that share one constraint (k1)
+            b.con("TaskStartAt", name="k1", task=a, value=1)
+            b.con("TaskEndAt", name="k2", task=a, value=2)
+            b.con("TaskEndAt", name="k3", task=a, value=4)
         elif kind == "force-n":
             b.con("OptionalTaskForceSchedule", name="k1", task=d, flag=True)
             b.con("TaskStartAt", name="k2", task=d, value=4)
@@ -342,7 +374,14 @@ def _infeasible_problems(full):
             b.con("TaskStartAt", name="k2", task=c, value=0)
         for i in range(pad):
             b.con("TaskStartAfter", name=f"pad{i}", task=c, value=0, kind="lax")
-        ps.append(b.done())
+        q = b.done()
+        if nice:
+            for k in q["cons"]:
+                k["name"] = readable.get(k["name"], k["name"])
+            for bf in q["buffers"]:
+                for op in bf["ops"]:
+                    op["name"] = readable.get(op["name"], op["name"])
+        ps.append(q)
     return ps
 
 
@@ -380,9 +419,16 @@ def run_C19(tier, seed, replay=None, procs=16):
         text = r["stdout"].split("Unsatisfied constraints", 1)[1]
         names = [m.group(2) for m in _CONFLICT.finditer(text)]
         mcount = re.search(r"conflict between (\d+) constraints", text)
-        if mcount is None or int(mcount.group(1)) != len(names):
+        if mcount is None:
             # the printed diagnosis is not in the format this harness reads: a machinery failure, not a verdict
-            raise RuntimeError(f"cannot parse the debug diagnosis of {p['tag']}: announced {mcount and mcount.group(1)}, parsed {names}")
+            raise RuntimeError(f"cannot parse the debug diagnosis of {p['tag']}: no count announced, parsed {names}")
+        if int(mcount.group(1)) != len(names):
+            # the library announces a conflict between N constraints and then names another number of them
+            viol.append({"kind": "diagnosis", "summary": f"the diagnosis announces a conflict between {mcount.group(1)} constraints but names {len(names)}: {names}",
+                         "clauses": ["C19_every_conflicting_constraint_is_named"], "problem": p, "tag": p["tag"],
+                         "detail": {"config": {"solver_kw": c["solver_kw"], "mode": c["mode"], "priority": c["priority"]},
+                                    "names": names, "stdout": text[:2000]}})
+            continue
         known = {k["name"] for k in p["cons"]} | {op["name"] for bf in p["buffers"] for op in bf["ops"]}
         alien = [n for n in names if n not in known]
         cfg = {"solver_kw": c["solver_kw"], "mode": c["mode"], "priority": c["priority"]}
